@@ -3,7 +3,7 @@
 import json,sys
 args=sys.argv[1:]
 pid,design_ref,technique=args[0],args[1],args[2]
-rest=" ".join(args[3:]).split(" -- ")
+rest=(" "+" ".join(args[3:])).split(" -- ")
 text,note=rest[1].strip(),rest[2].strip()
 m=json.load(open('/verif/MANIFEST.json'))
 m['checks']=[c for c in m['checks'] if c['property_id']!=pid]
